@@ -13,12 +13,24 @@ Two kinds of case (see harness/props/c04.py for the generators):
   After every operation ``size``, ``rendered_size``, ``rendered_width`` and
   ``rendered_height`` are read.
 
+* round 6: an operation ``["conc", [raises per thread], schedule]`` inside a history: the image
+  is rendered (``str(image)``) by SEVERAL THREADS AT ONCE, under a deterministic scheduler
+  (``parksched.ParkSched``, no sleeps): a render parks (a) after ``_renderer`` read the size
+  setting, at the entry of the ``set_size`` call that fixes a dynamic size, (b) with the size
+  fixed, at the entry of ``_get_image``, (c) when the renderer callback (a recorder of
+  ``image.size``) has run, before ``_renderer``'s ``finally``.  The schedule is a list of
+  ``["t", i]`` (thread i runs to its next park point, or to its end) and
+  ``["resize", cols, lines, cell]`` (the terminal changes between two steps); threads that
+  have not ended when the schedule is used up then run to their end, in order.  Reported:
+  per thread [outcome, size seen by the callback], then the usual observation.
+
 Floats cross the boundary as ``float.hex()`` strings only.  Results are integers."""
 import implenv
 from implenv import tests
 import os
 
 import term_image
+import parksched
 from PIL import Image
 from term_image import AutoCellRatio, set_cell_ratio
 from term_image.exceptions import TermImageError
@@ -110,6 +122,53 @@ def observe(img, outcome, during):
             "rw": img.rendered_width, "rh": img.rendered_height, "during": during}
 
 
+def run_conc(img, raises, sched):
+    """-> per thread [outcome, size seen by the renderer callback or None]"""
+    n = len(raises)
+    seen = [[] for _ in range(n)]
+    ps = None
+
+    def recorder(*a, **k):
+        i = ps.current()
+        seen[i].append(size_obs(img))
+        ps.gate("ran")
+        if raises[i]:
+            raise RendererError()
+        return ""
+
+    bound_set_size, bound_get_image = img.set_size, img._get_image
+
+    def set_size(*a, **k):
+        ps.gate("set_size")
+        return bound_set_size(*a, **k)
+
+    def get_image(*a, **k):
+        ps.gate("get_image")
+        return bound_get_image(*a, **k)
+
+    ps = parksched.ParkSched([(lambda: str(img)) for _ in range(n)])
+    img._render_image, img.set_size, img._get_image = recorder, set_size, get_image
+    try:
+        for g in sched:
+            if g[0] == "t":
+                ps.grant(g[1], "*")
+            else:
+                set_env(g[1:3], g[3])
+        for i in range(n):  # bounded: a render has three park points (a few more if it is changed)
+            for _ in range(16):
+                if ps.grant(i, "*") == "end":
+                    break
+        ps.finish()
+    finally:
+        del img._render_image, img.set_size, img._get_image
+    out = []
+    for i in range(n):
+        kind, val = ps.results[i] or ("exc", RuntimeError("thread did not end"))
+        outcome = 0 if kind == "ok" else code_of(val)
+        out.append([outcome, seen[i][0] if len(seen[i]) == 1 else [-8, len(seen[i]), 0]])
+    return out
+
+
 def run_h(case):
     cls = CLASSES[case["fam"]]
     set_env(case["term"], case["cell"])
@@ -133,7 +192,7 @@ def run_h(case):
 
     trace = []
     for o in case["ops"]:
-        outcome, during = 0, None
+        outcome, during, thr = 0, None, None
         try:
             if o[0] == "set_size":
                 _, w, h, frame, via = o
@@ -167,6 +226,8 @@ def run_h(case):
                     during = seen[0] if len(seen) == 1 else [-8, len(seen), 0]
             elif o[0] == "resize":
                 set_env(o[1:3], o[3])
+            elif o[0] == "conc":
+                thr = run_conc(img, o[1], o[2])
             elif o[0] == "ratio":
                 if o[1] in ("FIXED", "DYNAMIC"):
                     set_cell_ratio(AutoCellRatio[o[1]])
@@ -175,6 +236,8 @@ def run_h(case):
         except Exception as e:
             outcome = code_of(e)
         trace.append(observe(img, outcome, during))
+        if thr is not None:
+            trace[-1]["thr"] = thr
     return {"trace": trace}
 
 
